@@ -765,6 +765,48 @@ def r11_natural_isotopics_filter(idx, r):
     r.require(bool(nat_iso), "natural-isomer-present-in-data", f, msg="nuclides.dat holds a natural isomer (the case that distinguishes the filters)")
 
 
+def r12_label_table_and_composition_edits(idx, r):
+    """(a) the last character of a nuclide label encodes (A mod 10) + 10 x state through a 40-character table: each block of ten is the
+    digits / letters in ASCENDING order (0-9, A-J, K-T, U-Z a-d), so the label decodes to its A; a transposition inside a block is still a
+    bijection (no collision at import) but labels two nuclides with each other's mass number.  (b) a material's duplicate() starts the copy's
+    composition from an EMPTY mapping (the constructor filled it with the class default).  (c) setMassFrac refuses an out-of-range fraction
+    BEFORE it stores it."""
+    f = idx.method("armi.nucDirectory.nuclideBases.NuclideBase", "_createLabel")
+    tab = None
+    for x in ast.walk(f.node):
+        if isinstance(x, ast.Subscript) and isinstance(x.value, ast.Constant) and isinstance(x.value.value, str) and len(x.value.value) >= 40:
+            tab = x.value.value
+    if tab is None:
+        raise AnchorMissing("NuclideBase._createLabel: the 40-character last-digit table")
+    bad = [(k // 10, tab[k:k + 2]) for k in range(len(tab) - 1) if (k % 10) != 9 and not (ord(tab[k + 1]) > ord(tab[k]))]
+    r.require(len(tab) == 40 and not bad and len(set(tab)) == 40, "label-table:ascending-within-each-state-block", f,
+              msg=f"the last-character table `{tab}` is not ascending inside state block {bad[0][0] if bad else '?'} (`{bad[0][1] if bad else ''}`): the labels of two nuclides of that state carry each other's last digit of A")
+    n = 0
+    mm = idx.module("armi.materials.material")
+    for c in mm.classes.values():
+        d = c.methods.get("duplicate")
+        if d is None:
+            continue
+        n += 1
+        v = next((s_.attr for s_ in iter_stores(d.node) if isinstance(s_.node, ast.Name) and isinstance(s_.value, ast.Call) and norm(s_.value) in ("self.__class__()", "type(self)()")), None)
+        fresh = [s_ for s_ in iter_stores(d.node) if s_.chain == f"{v}.massFrac" and s_.kind == "assign" and (isinstance(s_.value, (ast.Dict, ast.DictComp)) or (isinstance(s_.value, ast.Call) and dotted(s_.value.func) in ("dict", "copy.copy", "copy.deepcopy")))]
+        merged = [c_ for c_ in iter_calls(d.node) if call_attr(c_) == "update" and norm(c_.func.value) == f"{v}.massFrac"]
+        r.require(v is not None and bool(fresh) and (not merged or fresh[0].stmt.lineno < merged[0].lineno), f"{c.name}.duplicate:composition-replaced-not-merged", d, node=merged[0] if merged else None,
+                  msg="the copy's composition is filled into the class-default composition its constructor built: a nuclide the original no longer holds (custom isotopics, clearMassFrac) stays in the copy and the fractions sum to more than one")
+    if n < 2:
+        raise AnalysisError(f"only {n} duplicate() implementations found")
+    sm = idx.method("armi.materials.material.Material", "setMassFrac")
+    st = [s_ for s_ in iter_stores(sm.node) if s_.kind == "subscript" and norm(s_.node.value) == "self.massFrac"]
+    guards = [x for x in walk_local(sm.node) if isinstance(x, ast.If) and any(isinstance(y, ast.Raise) for y in x.body) and sm.params()[2] in norm(x.test) and ("0.0" in norm(x.test) or "1.0" in norm(x.test))]
+    if not st or not guards:
+        raise AnchorMissing("Material.setMassFrac: range guard and store")
+    fl = Flow(sm.node, lambda nd: ["checked"] if any(nd is g_ for g_ in guards) else []).run()
+    for s_ in st:
+        stb = fl.state_before(s_.stmt)
+        r.require(stb is not None and stb.get("checked", (0, 0))[0] >= 1, "setMassFrac:range-checked-before-stored", sm, node=s_.stmt,
+                  msg="the fraction is stored before it is range-checked: a refused call (ValueError) leaves the out-of-range value - or an unknown nuclide - in the composition")
+
+
 def run(idx, chk):
     chk.explanation = (
         "C19: nuclides.dat, elements.dat, burn-chain.yaml and mcc-nuclides.yaml are parsed as data and linted exhaustively (unique (Z,A,S), N=A-Z, "
@@ -794,3 +836,5 @@ def run(idx, chk):
                  necessary="every element is reachable by number, symbol and name through the directory's own helpers")
     chk.run_rule("R19.11", "getNaturalIsotopics keeps exactly the data rows with a natural abundance (evaluated on all of nuclides.dat)", lambda r: r11_natural_isotopics_filter(idx, r), floor=2,
                  necessary="natural abundances of every element sum to one (or zero)")
+    chk.run_rule("R19.12", "label table ascending per state block; duplicate() replaces the composition; setMassFrac checks before storing", lambda r: r12_label_table_and_composition_edits(idx, r), floor=4,
+                 necessary="every identifier decodes to its (Z, A, state); compositions stay normalised through copies and refused edits")
